@@ -653,6 +653,20 @@ func (c *Ctx) sizeAlts(v ssa.Value, depth int) ([]sizeAlt, bool) {
 		if t, ok := sizeTerm[nm]; ok {
 			return []sizeAlt{{conds: map[string]bool{}, terms: []string{t}}}, true
 		}
+		// a repository helper that computes the size: the alternatives of its returned value
+		if h := x.Call.StaticCallee(); h != nil && len(h.Blocks) > 0 {
+			if rel, ok := c.P.PkgOf(h); ok && rel == "data" {
+				var out []sizeAlt
+				for _, ret := range core.Returns(h) {
+					alts, ok := c.sizeAlts(ret.Results[0], depth+1)
+					if !ok {
+						return nil, false
+					}
+					out = append(out, alts...)
+				}
+				return out, len(out) > 0
+			}
+		}
 		return nil, false
 	case *ssa.Phi:
 		d := x.Block().Idom()
@@ -844,6 +858,9 @@ func (c *Ctx) checkPermissions() {
 					if c.existsCond(cond) == "Mode" {
 						return true, true
 					}
+					if u, ok := cond.(*ssa.UnOp); ok && u.Op == token.NOT && c.existsCond(u.X) == "Mode" {
+						return false, true
+					}
 					return false, false
 				}) {
 					bad = append(bad, "masked mode returned without Mode.Exists()")
@@ -891,6 +908,31 @@ func (c *Ctx) checkPermissions() {
 				if _, m, ok := andMask(ic.Call.Args[0]); ok {
 					nmask++
 					okMask = m == 0xFFF
+				} else if p, isParam := core.Unconv(ic.Call.Args[0]).(*ssa.Parameter); isParam {
+					// a setter helper: every call site must pass a masked value
+					idx := -1
+					for i, q := range fn.Params {
+						if q == p {
+							idx = i
+						}
+					}
+					ncs := 0
+					okMask = idx >= 0
+					for _, e := range c.G.In[fn] {
+						cs, isCall := e.Site.(*ssa.Call)
+						if !isCall || cs.Call.StaticCallee() != fn {
+							continue
+						}
+						ncs++
+						if _, m, ok := andMask(cs.Call.Args[idx]); !ok || m != 0xFFF {
+							okMask = false
+						} else {
+							nmask++
+						}
+					}
+					if ncs == 0 {
+						okMask = false
+					}
 				}
 			}
 			r.Check(okMask, "R9.6", key, pos, "mode masked with 0xFFF before it is stored", "mode stored without & 0xFFF")
